@@ -900,7 +900,8 @@ def entry_all(ctx, flavours, fams=BUILDERS):
             if path not in F.adts:
                 continue
             meths = {q: b for q, b in F.bodies.items() if b['impl_self_q'] == path and not b['impl_trait'] and b['kind'] != 'Closure' and q not in getattr(F, 'absorbed', ()) and
-                     F.fns.get(q, {}).get('vis') == 'Public' and F.types[b['locals'][0]].get('p') != path}
+                     F.fns.get(q, {}).get('vis') == 'Public' and F.types[b['locals'][0]].get('p') != path and
+                     b['argc'] >= 1 and F.types[b['locals'][1]]['k'] == 'ref' and F.types[b['locals'][1]].get('m')}     # `&mut self`: searches drive FnMut callbacks; `&self` getters are not searches
             good = {q for q in meths if q in ent}
             changed = True
             while changed:
